@@ -44,7 +44,7 @@ def clock_caps(prog):
     return caps
 
 
-def default_canon(rr, k, caps, canon_paths=None):
+def default_canon(rr, k, caps, canon_paths=None, value_caps=None):
     """Canonical form of the state at the end of tick k of a real run: framer statuses, active
     outline, done/main, capped clocks (only those the framer reads), watched shares with stamps as ages."""
     snap = rr.ticks[k]
@@ -75,6 +75,10 @@ def default_canon(rr, k, caps, canon_paths=None):
     rank = {v: i for i, v in enumerate(sorted(stamps, reverse=True))}
     sh = []
     for p, (fields, stamp) in sorted(shares.items()):
+        if value_caps and p in value_caps:
+            # a counter only ever compared with constants below the cap: larger values are indistinguishable
+            fields = tuple((f, min(v, value_caps[p]) if isinstance(v, (int, float)) and not isinstance(v, bool) else v)
+                           for f, v in fields)
         sh.append((p, fields, None if stamp is None else rank[stamp]))
     mk = []
     for p, marks in sorted((snap.get("marks") or {}).items()):
@@ -84,7 +88,7 @@ def default_canon(rr, k, caps, canon_paths=None):
     return (tuple(fr), tuple(sh), tuple(mk))
 
 
-def explore(prog, alphabet, depth, on_run, watch=(), back_alphabet=None, canon=None, max_states=None, canon_paths=None):
+def explore(prog, alphabet, depth, on_run, watch=(), back_alphabet=None, canon=None, max_states=None, canon_paths=None, value_caps=None):
     """canon_paths: watched shares that are READ by the program (others are write-only outputs: compared by on_run but not part of the state)."""
     caps = clock_caps(prog)
     backs = back_alphabet or [None]
@@ -117,7 +121,7 @@ def explore(prog, alphabet, depth, on_run, watch=(), back_alphabet=None, canon=N
                     maxd = max(maxd, len(h2))
                     if stop or rr.outcome != "returned" or len(rr.ticks) < len(h2):
                         continue   # violation recorded by on_run or run ended early: do not expand
-                    key = canon(rr, len(h2) - 1, caps) if canon else default_canon(rr, len(h2) - 1, caps, canon_paths)
+                    key = canon(rr, len(h2) - 1, caps) if canon else default_canon(rr, len(h2) - 1, caps, canon_paths, value_caps)
                     if key in seen:
                         continue
                     seen.add(key)
